@@ -34,7 +34,7 @@ def run(ref):
         a = subprocess.run(['patch', '-p1', '-s', '-f', '-i', ref], cwd=tmp, capture_output=True, text=True, stdin=subprocess.DEVNULL)
         if a.returncode != 0:
             return (name, 'PATCH-FAILS', [])
-        b = subprocess.run(['go', 'build', './...'], cwd=tmp, capture_output=True, text=True, env=env)
+        b = subprocess.run(['go', 'build', '-trimpath', './...'], cwd=tmp, capture_output=True, text=True, env=env)
         if b.returncode != 0:
             return (name, 'BUILD-FAILS', [b.stderr[:200]])
         os.makedirs(tmp + '/.v')
